@@ -1,6 +1,7 @@
 package main
 
 import (
+	"strings"
 
 	"golang.org/x/tools/go/ssa"
 )
@@ -181,8 +182,8 @@ func checkSentinelLoop(p *Program, r *Result, fn *ssa.Function, callee string) {
 	var calls []ssa.CallInstruction
 	for _, c := range callsIn(fn) {
 		n := calleeName(c.Common())
-		if n != callee {
-			continue
+		if n != callee && n != strings.TrimSuffix(callee, "$bound") {
+			continue // the per-stanza unwrap, through the bound method value (spliced multiUnwrap) or called directly
 		}
 		if callee == "dynamic" {
 			if _, isParam := c.Common().Value.(*ssa.Parameter); !isParam {
@@ -257,7 +258,7 @@ func checkSentinelLoop(p *Program, r *Result, fn *ssa.Function, callee string) {
 				return
 			}
 		}
-		if notSent && isNil {
+		if isNil { // a nil error is not the (non-nil) sentinel: no separate test needed
 			t := tb.Term(ret.Results[0])
 			if t.Op == "Ext" && t.Args[0].V == call.Value() && isNilConst(ret.Results[ei]) {
 				okSuccess = true
@@ -277,7 +278,8 @@ func checkSentinelLoop(p *Program, r *Result, fn *ssa.Function, callee string) {
 				facts := tb.FactsOnEdge(b, k)
 				_, notSent := findFact(facts, isSentinelFact(false))
 				_, isNil := errFactFor(facts, call.Value(), true)
-				if notSent && isNil && !loop.inLoop(s) {
+				_ = notSent
+				if isNil && !loop.inLoop(s) {
 					okSuccess = true
 				}
 			}
